@@ -525,7 +525,7 @@ def run(facts, tier, ctx):
     out = []
     # frame encoding is a function of its arguments: the cross-call state rules of C10 (thread-local storages reset /
     # overwritten before use, injective cache keys), and the digest/count path of the par mode (shared with C03/C14)
-    out += [r for r in c10.run(facts, tier, ctx) if r.rule in ("STATE-ENUM", "RESET", "STALE-READ", "PLAIN-STATE", "KEY")]
+    out += [r for r in c10.run(facts, tier, ctx) if r.rule in ("STATE-ENUM", "RESET", "STALE-READ", "RECYCLE", "PLAIN-STATE", "KEY")]
     out += c03.par_rules(facts)
     out += lib_fill.parcontext_siblings(facts)
     # single-thread mode hashes through Context's fills, multi-thread mode through ParContext -> fill_le_bytes: the digest
